@@ -357,8 +357,12 @@ FILE_NAME_CLASSES = [
     ('relative-with-colons', 'C:drive-like'),
     ('leading-tilde-or-dash', '~home'),
     ('leading-tilde-or-dash', '-dash'),
+    ('glob-characters', os.path.join('{abs}', 'prices[2024]')),
+    ('glob-characters', 'part[a-c]'),
+    ('glob-characters', os.path.join('{abs}', 'star*and?mark')),
+    ('glob-characters', 'export[1]'),
 ]
-FILE_NAME_TAGS = ['file-name:' + c for c in ('relative-with-colons', 'blanks-and-non-ascii', 'url-characters', 'relative-in-a-subdirectory', 'leading-tilde-or-dash')]
+FILE_NAME_TAGS = ['file-name:' + c for c in ('relative-with-colons', 'blanks-and-non-ascii', 'url-characters', 'relative-in-a-subdirectory', 'leading-tilde-or-dash', 'glob-characters')]
 
 
 def file_path(tmpdir, default_name, ext, selector, out=None):
